@@ -43,6 +43,40 @@ N = {
  "C02-m1": "map parent updater no longer checks the value id before re-storing a child: child A under k, k overwritten by B, A mutated through its old handle -> parent[k] silently becomes A again",
  "C02-m2": "OrderedMap.set installs the child callback only for NEW keys: existing key overwritten with a fresh container that is then mutated through the handle passed to Set",
 }
+
+N.update({
+ "C16-m1": "pooled element buffer returned undrained after a FAILED array-slab encode: another storage's next data-slab encode that draws the same pool entry writes a corrupt register",
+ "C16-m2": "FastCommit returns an encode error while encoder goroutines are still reading slabs: caller mutating its containers right after the error races with them (>=2 workers)",
+ "C07-m4": "type-info reference index read from the head byte only: a slab whose shared type-info table has more than 24 entries (>=26 types each used twice) decodes references >=24 as 24",
+ "C01-m3": "ArrayMetaDataSlab.Split takes the left count from the wrong cumulative slot when the child count is even: index slab splitting with an even number of children (slab sizes 300, 768, 2000 ...) -> positional access off by one child",
+ "C02-m3": "singleElement.Remove skips the key comparison for externalised keys: Remove of an ABSENT key whose digests equal those of a stored entry with an oversized key deletes that entry",
+ "C02-m4": "basicDigester.Reset keeps the BLAKE3 digests: default digester, genuine first-level collisions (crafted hash inputs), pool turnover between filing a key and looking it up",
+ "C03-m3": "FastCommit skips the ledger delete of removed slabs that are not in the read cache: slab removed by identifier without having been loaded (after DropCache / in a fresh storage), then commit",
+ "C04-m3": "stale 'BLAKE3 computed' flag on pooled digesters: default digester + first-level collisions; deeper digests are 0 or real depending on pool reuse -> bytes differ between replays",
+ "C06-m3": "StorableSlab caches its size without the 2-byte head when created (correct when decoded): any externalised large value reports 2 bytes less than written until reloaded",
+ "C06-m4": "GetUintCBORSize(2^32-1) returns 9 instead of 5: a uint element / key exactly equal to 4294967295 sized through the library helper",
+ "C09-m3": "external collision groups declared copyable: CopyNonRefSimple of a single-slab map holding an external collision group -> the group slab is referenced by two roots",
+ "C09-m4": "ByteSliceToByteArray creates the root before it knows the elements fit: estimate says one slab, real sizes do not -> falls back to the bulk constructor and leaves an orphan empty root",
+ "C10-m3": "MapDataSlab.Inlinable uses < instead of <=: nested MAP whose inlined size equals the slot limit exactly",
+ "C10-m4": "inline collision group spills to an external slab only on inserts: colliding keys whose VALUES grow in place (child containers notifying the parent) past the element limit",
+ "C05-m3": "ByteSliceToByteArray fast path no longer re-checks the real size: estimate low by more than 1.5x -> single root data slab far beyond 1.5x the slab size",
+ "C05-m4": "ArrayMetaDataSlab.Set repairs an underflowing child only if it is a data slab: >=3-level array, second-level index slab at its minimum child count, shrinking Set that makes a leaf merge",
+ "C11-m3": "two cooperating edits: wrapped standalone child keeps its index entry after detach AND the array parent updater trusts the index map: stale handle shrinks the detached child -> overwrites whatever sits at the old index",
+ "C12-m3": "see notes.md (collision group handling)",
+ "C14-m3": "sequential commit helper (order-relaxed commit with <2 modified slabs) swallows a failed Store (shadowed err)",
+ "C14-m4": "order-relaxed commit drops deletion tombstones from the write set before the ledger deletes are issued: any early return forgets the remaining deletions",
+ "C15-m3": "RetrieveIfLoaded treats a pending removal as 'no delta' and falls through to the read cache: committed+cached slab, Remove without commit, RetrieveIfLoaded",
+ "C15-m4": "sequential commit path keeps an existing cache entry instead of the committed slab: older version cached, a different slab object stored under the same id, order-relaxed commit with <2 modified slabs",
+ "C16-m3": "failed MAP-slab encode returns the pooled buffer dirty (element not first in the slab fails): another storage's next encode is corrupted",
+ "C16-m4": "BatchPreload (parallel path) replaces a non-empty read cache smaller than the batch: preload in several batches / after earlier reads forgets cached slabs",
+ "C17-m3": "inline collision group declared copyable when it holds no slab reference: single-slab map whose inline collision group contains an INLINED nested container -> copy offered, then fails",
+ "C18-m3": "SlabIDStorable.StoredValue checks !found before err: a failing ledger read of a referenced slab (large value, standalone child, externalised key) is reported as fatal slab-not-found",
+ "C19-m3": "type-info reference index converted to int before the bounds check: 8-byte index with the top bit set (d8 f6 1b 80 ..) -> negative index panic",
+ "C19-m4": "v1 map index slab: minimum-length check moved before the extra data: root map index register truncated inside the 10-byte address/count prefix",
+ "C20-m3": "leaf-to-root walk stops at already visited ancestors before the owner comparison: foreign-owned child under a parent that has other children visited first",
+ "C20-m4": "GetAllChildReferences reuses one slice for the next BFS level: >=3 levels below the slab with multi-slab children -> references dropped",
+})
+
 for id_, txt in N.items():
     p = '/verif/seeded/%s/meta.json' % id_
     if not os.path.exists(p):
